@@ -597,3 +597,11 @@ Print Assumptions C03_fair_progress.
 Print Assumptions C03_fair_progress_instance.
 Print Assumptions C03_fair_termination_readonly_partial.
 Print Assumptions C03_fair_nonvacuous.
+
+(* writers, in systems in which no resize can start (grow_needed identically false, grow_only): every fair schedule finishes
+   every call -- the (Good, M) pair for XS_fair.s_fair_cond on the program counters of Load / Compute / silent Range / Size.
+   NOT the extracted machine (its growth policy is not identically false): a stage of the general theorem, kept because its
+   measure (lock hand-over W5, chain stores W3, chain-length cap) is the part that differs from MapOf's. *)
+From CacheV.proofs Require XS_fair2.
+Definition C03_fair_termination_writers_no_resize_partial := @XS_fair2.s_fair_termination_no_visitor_calls_no_resize.
+Print Assumptions C03_fair_termination_writers_no_resize_partial.
